@@ -7,12 +7,24 @@ namespace N2V.C06
 open N2V N2V.Sched
 
 /-- A cycle (or any other error while collecting the wanted set) is reported before the run
-    loop is entered: no command is started. -/
-theorem want_error_runs_nothing (g : Graph) (a : Run.Args) (c : Choices) (m : String)
-    (h : want g (init a.pools a.failuresLeft) a.manifest = .err m) :
-    Run.build g a c = (init a.pools a.failuresLeft, .err m) := by
-  unfold Run.build
-  simp only [h, Run.ofRes]
+    loop is entered: the invocation ends with that diagnostic, and the state it leaves has
+    exactly the late (queued/running/done/failed) builds of a fresh `Work` — none: no command
+    was started, no step of the cycle ran. -/
+theorem want_error_runs_nothing (g : Graph) (a : Run.Args) (c : Choices) (m : String) (s1 : S)
+    (h : want g (Run.fresh a) a.manifest = .err m s1) :
+    Run.build g a c = (s1, .err m) ∧ ∀ b, s1.st b ≠ .running ∧ s1.st b ≠ .done := by
+  constructor
+  · unfold Run.build; simp only [h]
+  · intro b
+    have e := (want_lateEq_err g _ _ _ _ h).1 b
+    have h0 : (Run.fresh a).st b = .unknown := rfl
+    constructor
+    · intro hr
+      have := (e .running (Or.inr (Or.inl rfl))).mp hr
+      rw [h0] at this; cases this
+    · intro hr
+      have := (e .done (Or.inr (Or.inr (Or.inl rfl)))).mp hr
+      rw [h0] at this; cases this
 
 /-- The cycle diagnostic has the documented shape. -/
 theorem cycle_message_shape (g : Graph) (stack : List Nat) (id : Nat) :
@@ -35,7 +47,7 @@ theorem run_returns (g : Graph) (par : Nat) (c : Choices) (s : S) :
 
 /-- The want phase keeps a state inherited from the manifest-regeneration phase: steps already
     settled there stay settled. -/
-theorem inherited_state_kept (g : Graph) (s s' : S) (f : Nat) (h : want g s f = .ok s') (b : Nat)
+theorem inherited_state_kept (g : Graph) (s s' : S) (f : Nat) (h : want g s f = .ok () s') (b : Nat)
     (hb : s.st b = .done) : s'.st b = .done :=
   ((want_lateEq' g s s' f h).1 b .done (Or.inr (Or.inr (Or.inl rfl)))).mpr hb
 
